@@ -378,18 +378,53 @@ def urlsOk (base : Str) (d : DeviceSpec) : Bool :=
 
 /-! ### judging an observed model -/
 
-/-- one device of the flattened graph (pre-order, with its nesting depth) -/
+/-- the lookup accessors of one `UpnpService`: the keys of `state_variables` / `actions` and, for every
+    variable / action, what `state_variable(name)` / `action(name)` return for its own name (position in
+    `.values()`, by object identity; `none` = KeyError) -/
+structure SvcLook where
+  varKeys : List Str
+  actKeys : List Str
+  varByName : List (Option Nat)
+  actByName : List (Option Nat)
+deriving DecidableEq, Repr
+
+/-- one device of the flattened graph (pre-order, with its nesting depth), with what its lookup
+    accessors return: the keys of `services` / `embedded_devices`, `service(type)` and `service_id(id)` for
+    every service's own type / id (positions in `services.values()`), and the accessors of each service -/
 structure DevRow (F : Type) where
   depth : Nat
   info : List (Option Str)
   url : Str
   icons : List IconM
   services : List (SvcM F)
+  svcKeys : List Str
+  embKeys : List Str
+  svcByType : List (Option Nat)
+  svcById : List (Option Nat)
+  svcLooks : List SvcLook
 deriving DecidableEq, Repr
+
+/-- `service.state_variable(name)` / `service.action(name)` on the dicts keyed by name -/
+def lookOf (s : SvcM F) : SvcLook :=
+  { varKeys := s.vars.map (·.name), actKeys := s.actions.map (·.name)
+    varByName := s.vars.map fun v => findIdxFrom (fun x => x.name == v.name) s.vars 0
+    actByName := s.actions.map fun a => findIdxFrom (fun (x : ActM) => x.name == a.name) s.actions 0 }
+
+/-- the row of one device: `device.service(type)` is the dict lookup by the plain type (the first
+    service of that type), `device.service_id(id)` the first service with that id -/
+def rowOf (depth : Nat) (info : List (Option Str)) (url : Str) (icons : List IconM) (svcs : List (SvcM F))
+    (emb : List (DevM F)) : DevRow F :=
+  let keys := keyedKeys (·.serviceType) (·.serviceId) svcs
+  { depth := depth, info := info, url := url, icons := icons, services := svcs
+    svcKeys := keys
+    embKeys := keyedKeys DevM.deviceType DevM.udn emb
+    svcByType := svcs.map fun s => findIdxFrom (fun k => k == s.serviceType) keys 0
+    svcById := svcs.map fun s => findIdxFrom (fun (x : SvcM F) => x.serviceId == s.serviceId) svcs 0
+    svcLooks := svcs.map lookOf }
 
 mutual
 def flatten (depth : Nat) : DevM F → List (DevRow F)
-  | .mk info url icons svcs emb => ⟨depth, info, url, icons, svcs⟩ :: flattens (depth + 1) emb
+  | .mk info url icons svcs emb => rowOf depth info url icons svcs emb :: flattens (depth + 1) emb
 def flattens (depth : Nat) : List (DevM F) → List (DevRow F)
   | [] => []
   | d :: r => flatten depth d ++ flattens depth r
